@@ -261,8 +261,77 @@ proof! {
 	}
 }
 
+proof! {
+	[secp, hash_mix] fn block_coinbase_sum() {
+		// Block::verify_coinbase == Ok  <=>  sum(coinbase outputs) - (REWARD + fees) == sum(coinbase
+		// kernels): the subsidy plus the fees collected is the only new value and it is claimed
+		// exclusively by coinbase-flagged outputs and kernels. One plain + one coinbase of each.
+		#[cfg(kani)]
+		{
+			use grin_core::core::block::{Block, BlockHeader};
+			env::set_chain_type(grin_core::global::ChainTypes::Mainnet);
+			let (co1, vo1, ro1) = k::any_elem();
+			let (co2, vo2, ro2) = k::any_elem();
+			let (ck1, vk1, rk1) = k::any_elem();
+			let (ck2, vk2, rk2) = k::any_elem();
+			let cb_o1: bool = nd::any();
+			let cb_o2: bool = nd::any();
+			let cb_k2: bool = nd::any();
+			let fee: u64 = nd::any();
+			nd::assume(fee < (1 << 40));
+			let of = |c: bool| if c { OutputFeatures::Coinbase } else { OutputFeatures::Plain };
+			let block = Block {
+				header: BlockHeader::default(),
+				body: TransactionBody {
+					inputs: Inputs::CommitOnly(vec![CommitWrapper::from(m::pack(1, 1))]),
+					outputs: vec![Output::new(of(cb_o1), co1, k::proof(true)), Output::new(of(cb_o2), co2, k::proof(true))],
+					kernels: vec![
+						TxKernel { features: KernelFeatures::Plain { fee: k::fee_fields(fee, 0) }, excess: ck1, excess_sig: k::sig(true) },
+						TxKernel { features: if cb_k2 { KernelFeatures::Coinbase } else { KernelFeatures::Plain { fee: k::fee_fields(0, 0) } }, excess: ck2, excess_sig: k::sig(true) },
+					],
+				},
+			};
+			let r = block.verify_coinbase();
+			let reward = grin_core::consensus::REWARD.wrapping_add(fee) as u16;
+			let mut ov = 0u16;
+			let mut or_ = 0u16;
+			if cb_o1 { ov = ov.wrapping_add(vo1); or_ = or_.wrapping_add(ro1); }
+			if cb_o2 { ov = ov.wrapping_add(vo2); or_ = or_.wrapping_add(ro2); }
+			let (kv, kr) = if cb_k2 { (vk2, rk2) } else { (0, 0) };
+			let _ = (vk1, rk1);
+			let eq = ov.wrapping_sub(reward) == kv && or_ == kr;
+			check!(r.is_ok() == eq, "verify_coinbase accepts exactly when coinbase outputs - (reward + fees) == coinbase kernels");
+			cover!(r.is_ok() && cb_o1 && !cb_o2 && cb_k2, "one coinbase output and kernel accepted");
+			cover!(r.is_err(), "rejected");
+			core::mem::forget(r);
+			core::mem::forget(block);
+		}
+	}
+}
+
+proof! {
+	[zeroize] fn header_overage_arithmetic() {
+		// the height-determined supply: one REWARD per block (plus the genesis reward)
+		use grin_core::core::block::BlockHeader;
+		let mut h = BlockHeader::default();
+		check!(h.overage() == -(grin_core::consensus::REWARD as i64), "a block's overage is minus one reward");
+		let height: u64 = nd::any();
+		nd::assume(height < (1 << 27)); // (height+1)*REWARD fits i64 below ~1.5e8
+		h.height = height;
+		let g: bool = nd::any();
+		let n = height as i64 + g as i64;
+		check!(h.total_overage(g) == -(n * grin_core::consensus::REWARD as i64), "total overage = -(height [+1]) * REWARD");
+		check!(grin_core::consensus::reward(0) == grin_core::consensus::REWARD && grin_core::consensus::REWARD == 60_000_000_000, "60 grin subsidy");
+		let fee: u64 = nd::any();
+		check!(grin_core::consensus::reward(fee) == grin_core::consensus::REWARD.saturating_add(fee), "reward = subsidy + fees");
+		core::mem::forget(h);
+	}
+}
+
 pub const HARNESSES: &[(&str, fn())] = &[
 	("c01::kernel_sums_iff_equation_1_2_1", kernel_sums_iff_equation_1_2_1),
 	("c01::tx_validate_sound", tx_validate_sound),
 	("c01::body_validate_consults_oracles", body_validate_consults_oracles),
+	("c01::block_coinbase_sum", block_coinbase_sum),
+	("c01::header_overage_arithmetic", header_overage_arithmetic),
 ];
